@@ -172,27 +172,37 @@ Definition trans (c : code) (t : table) (fresh : I) (s : state) : option (list s
    (running?, f_lasti, value stack as the frame holds it, ground truth at that instant) *)
 Definition observation := (bool * nat * list val * list tent)%type.
 
+(* f_lasti of a frame that is executing the instruction at p while code it called runs: p
+   itself when the callee is reached through a C call, or the LAST inline cache unit of the
+   instruction when CPython 3.12 pushes the callee's frame inline (CALL of a Python function or
+   bound method, SEND into a coroutine, FOR_ITER over a generator, ...) *)
+Definition run_at (c : code) (p : nat) (st : list val) (tr : list tent) : list observation :=
+  match ncaches c p with
+  | 0 => [(true, p, st, tr)]
+  | k => [(true, p, st, tr); (true, p + k, st, tr)]
+  end.
+
 Definition obs (c : code) (s : state) : list observation :=
   let p := pc s in let st := stack s in let tr := truth s in
   match at_ c p with
   | IYield => match st with _ :: r => [(false, p, r, tr)] | [] => [] end   (* suspended here *)
   | ICall n =>
       match nth_error st (S n) with
-      | Some (VX s' _) => [(true, p, st, set_phase s' Exiting tr)]   (* inside __exit__/__aexit__ *)
-      | _ => [(true, p, st, tr)]
+      | Some (VX s' _) => run_at c p st (set_phase s' Exiting tr)   (* inside __exit__/__aexit__ *)
+      | _ => run_at c p st tr
       end
   | IWithExceptStart =>
       match nth_error st 3 with
-      | Some (VX s' _) => [(true, p, st, set_phase s' Exiting tr)]
+      | Some (VX s' _) => run_at c p st (set_phase s' Exiting tr)
       | _ => []
       end
-  | ISend _ => [(true, S p, st, tr)]      (* 3.12: lasti rests on SEND's inline cache *)
   | IGetAwaitable _ =>                    (* __await__ of an ordinary awaitable; the awaitables
                                              returned by __aenter__/__aexit__ are assumed to be
                                              coroutine objects, for which no Python code runs here *)
-      match st with VO :: _ => [(true, p, st, tr)] | _ => [] end
+      match st with VO :: _ => run_at c p st tr | _ => [] end
+  | ISend _                               (* inside the awaited coroutine / iterator *)
   | IBeforeWith _                         (* inside __enter__/__aenter__: not yet listed *)
-  | IForIter _ | ICondJump _ true | IGen _ _ true => [(true, p, st, tr)]
+  | IForIter _ | ICondJump _ true | IGen _ _ true => run_at c p st tr
   | _ => []
   end.
 
@@ -210,7 +220,7 @@ Definition expected (tr : list tent) : list (ctxv I) :=
 End Machine.
 
 Arguments pc {I}. Arguments stack {I}. Arguments truth {I}. Arguments Build_state {I}.
-Arguments mk {I}. Arguments trans {I}. Arguments obs {I}. Arguments expected {I}.
+Arguments mk {I}. Arguments trans {I}. Arguments obs {I}. Arguments expected {I}. Arguments run_at {I}.
 Arguments exc_edge {I}. Arguments set_phase {I}. Arguments remove_site {I}. Arguments event {I}.
 Arguments find_site {I}. Arguments is_active {I}. Arguments swap_top {I}. Arguments exit_call {I}.
 Arguments both {I}. Arguments is_VO {I}. Arguments all_VO {I}.
